@@ -15,12 +15,13 @@ META = {
     'bounds': {'quick': '4x4 rasters (symbolic cells, NaN allowed for the 3x3-window terrain operations) over a seeded third of the 64 chunk grids (always including single-chunk, all 1-cell chunks '
                         'and the most uneven ones) for slope, aspect, curvature, hillshade, focal mean (passes 1, 2), focal apply / focal_stats with kernels 3x3, 1x3, 3x1, 3x5, 5x3, '
                         'convolution_2d with symbolic weights for the same kernel shapes, hotspots; 2x2 rasters over all 4 chunk grids for binary, reclassify, equal_interval, the ten spectral '
-                        'indices and true_color (differently chunked band rasters included); perlin / terrain: concrete seeds, 2 grids (enumerated, not solved)',
+                        'indices and true_color (differently chunked band rasters included); perlin / terrain: concrete seeds, 2 grids (enumerated, not solved); integer rasters (int32, uint8) 3x4 over 3 seeded grids for slope, aspect, curvature, hillshade, focal mean and 2 grids for apply / convolution_2d / focal_stats',
                'thorough': 'every one of the 64 grids of 4x4 for every window operation and kernel shape, 4x5 for 3x5 kernels'},
     'stubs': ['dask.array = sx.symda contract shim: map_overlap(depth per axis, constant boundary, dask\'s minimum-chunk-size re-chunking ported verbatim), map_blocks with chunk unification, '
               'global reductions over the whole array; validated against real dask by concrete replay of sampled path models on every run'],
     'outside': ['dask schedulers / worker counts (only "block evaluation order does not matter" is modelled)', 'float rounding of re-ordered global reductions', 'CuPy', 'rasters larger than the bound'],
     'assumptions': ['exact real arithmetic'],
+    'technique': 'solver-based bounded symbolic execution of the real Python source (z3), counterexample replay on the real build; perlin / generate_terrain by concrete differential runs (enumeration)',
     'budget_s': {'quick': 240, 'thorough': 2400},
 }
 
